@@ -290,7 +290,8 @@ func (gb *gcpBalancer) UpdateClientConnState(ccs balancer.ClientConnState) error
 	}
 
 	if len(gb.scRefs) == 0 {
-		gb.newSubConn()
+		// The mutex is already held here.
+		gb.newSubConnLocked()
 		return nil
 	}
 
@@ -320,7 +321,11 @@ func (gb *gcpBalancer) getConnectionPoolSize() int {
 func (gb *gcpBalancer) newSubConn() {
 	gb.mu.Lock()
 	defer gb.mu.Unlock()
+	gb.newSubConnLocked()
+}
 
+// newSubConnLocked is newSubConn for callers that already hold the mutex lock.
+func (gb *gcpBalancer) newSubConnLocked() {
 	// there are chances the newly created subconns are still connecting,
 	// we can wait on those new subconns.
 	for _, scState := range gb.scStates {
